@@ -1,4 +1,3 @@
-use emmylua_code_analysis::Emmyrc;
 use serde::{Deserialize, Serialize};
 use std::path::PathBuf;
 
@@ -7,7 +6,7 @@ pub struct Index {
     pub modules: Vec<Module>,
     pub types: Vec<Type>,
     pub globals: Vec<Global>,
-    pub config: Emmyrc,
+    pub config: serde_json::Value,
 }
 
 #[derive(Debug, Serialize, Deserialize)]
